@@ -51,6 +51,8 @@ Clause(e) ==
     [] e.op = "eq" ->
          IF e.res # "ok" THEN "C13.Total/eq"
          ELSE IF e.eq_op # 1 \/ e.eq_po # 1 THEN "C13.ParseEqual" ELSE ""
+    [] e.op = "fresh" ->          \* same = 1 iff a second parse of the text returned the very object the first parse returned
+         IF e.same # 0 THEN "C13.ParseFresh" ELSE ""
     [] e.op = "reprint" ->
          IF e.res # "ok" THEN "C13.Total/reprint"
          ELSE IF e.retoks # e.toks THEN "C13.Reprint" ELSE ""
